@@ -1,6 +1,7 @@
 package props
 
 import (
+	"encoding/json"
 	"strings"
 	"unicode"
 )
@@ -20,3 +21,13 @@ func swapCase(s string) string {
 }
 
 func toValid(s string) string { return strings.ToValidUTF8(s, "?") }
+
+func reJSON(in interface{}, out interface{}) error {
+	b, err := json.Marshal(in)
+	if err != nil {
+		return err
+	}
+	return json.Unmarshal(b, out)
+}
+
+func reJSONString(in string, out interface{}) error { return json.Unmarshal([]byte(in), out) }
